@@ -8,6 +8,8 @@ import Glom.Model.C10Env
 
   V:     null | {"b":bool} | {"i":int} | {"f2":twice} | {"s":str} | {"l":[V…]} | {"t":[V…]}
          | {"set":[V…]} | {"fs":[V…]} | {"d":[[V,V]…]} | {"obj":tag}
+         | {"sub":cls,"v":V}   (an instance of the user subclass `cls` of the builtin class of V: dict / list /
+                                tuple / set / frozenset / str)
   Arg:   {"c":V} | {"t":[V…]} | {"val":V} (Val(v)) | {"seq":[{"c":V}|{"t":[V…]} …],"tuple":bool}
   (a "pred" / validator node may carry "form":"fn"|"inst"|"partial", a "many" node "as":"list"|"tuple",
    a check "one_of_as": how the harness built the Python object; the model does not depend on it)
@@ -50,6 +52,11 @@ partial def vOfJson (j : Json) : Except String V :=
     else if let .ok i := j.getObjValAs? Int "f2" then .ok (.flt i)
     else if let .ok s := j.getObjValAs? String "s" then .ok (.str s)
     else if let .ok s := j.getObjValAs? String "obj" then .ok (.obj s)
+    else if let .ok c := j.getObjValAs? String "sub" then do
+      let b ← vOfJson (← j.getObjVal? "v")
+      match b with
+      | .list _ | .tuple _ | .set _ | .fset _ | .dict _ | .str _ => return .sub c b
+      | _ => throw s!"bad subclass instance {j.compress}"
     else if let .ok (.arr a) := j.getObjVal? "l" then do return .list (← a.toList.mapM vOfJson)
     else if let .ok (.arr a) := j.getObjVal? "t" then do return .tuple (← a.toList.mapM vOfJson)
     else if let .ok (.arr a) := j.getObjVal? "set" then do return .set (← a.toList.mapM vOfJson)
@@ -68,6 +75,7 @@ partial def vToJson : V → Json
   | .flt i => Json.mkObj [("f2", toJson i)]
   | .str s => Json.mkObj [("s", s)]
   | .obj s => Json.mkObj [("obj", s)]
+  | .sub c b => Json.mkObj [("sub", c), ("v", vToJson b)]
   | .list xs => Json.mkObj [("l", Json.arr (xs.map vToJson).toArray)]
   | .tuple xs => Json.mkObj [("t", Json.arr (xs.map vToJson).toArray)]
   | .set xs => Json.mkObj [("set", Json.arr (xs.map vToJson).toArray)]
@@ -293,6 +301,19 @@ partial def tyNames : Spec → List String
   | .dict es => es.flatMap (fun e => tyNames e.2.1 ++ tyNames e.2.2)
   | _ => []
 
+/-- a list / tuple / set / frozenset / dict VALUE written where a pattern is expected is a container
+    PATTERN for glom, not a literal matched by `==`: such a `lit` node is a harness error -/
+partial def containerLits : Spec → List String
+  | .lit (.list _) | .lit (.set _) | .lit (.fset _) | .lit (.dict _) | .lit (.tuple _) | .lit (.sub ..) =>
+    ["container literal"]
+  | .and cs _ | .or cs _ | .list cs | .set cs | .fset cs | .tuple cs => cs.flatMap containerLits
+  | .not c | .matchS c _ => containerLits c
+  | .switch cases _ => cases.flatMap (fun p => containerLits p.1 ++ containerLits p.2)
+  | .dict es => es.flatMap (fun e =>
+      -- the constant of an `Optional(k)` IS compared with `!=` (`Optional.glomit`)
+      (match e.1 with | .opt _ => [] | _ => containerLits e.2.1) ++ containerLits e.2.2)
+  | _ => []
+
 partial def fnNames : Spec → List String
   | .pred _ fn => [fn]
   | .and cs _ | .or cs _ | .list cs | .set cs | .fset cs | .tuple cs => cs.flatMap fnNames
@@ -304,6 +325,7 @@ partial def fnNames : Spec → List String
 
 partial def objTags : V → List String
   | .obj tag => [tag]
+  | .sub c b => (c ++ "#") :: objTags b
   | .list xs | .tuple xs | .set xs | .fset xs => xs.flatMap objTags
   | .dict es => es.flatMap (fun e => objTags e.1 ++ objTags e.2)
   | _ => []
@@ -318,6 +340,8 @@ def checkNames (ct : ClassTable) (s : Spec) (vs : List V) : Except String Unit :
   let known := knownTypes ct
   for n in tyNames s do
     if !known.contains n then throw s!"unknown class name {n} (catalogue desync)"
+  if !(containerLits s).isEmpty then
+    throw "a `lit` node holds a list / tuple / set / dict value: that is a container pattern, not a literal"
   for f in fnNames s do
     if (predTable.lookup f).isNone then throw s!"unknown callable {f} (catalogue desync)"
   for v in vs do
